@@ -60,6 +60,19 @@ def gen_pairs(ctx):
     return cf
 
 
+def gen_names(ctx):
+    """awkward names and string values in every name / value position of the shortest and longest statement of every kind"""
+    cfg = "Gen_names_all.cfg"
+    open(ctx.path("spec", cfg), "w").write("SPECIFICATION NSpec\nCONSTANTS\n  KindsUsed = {%s}\nCHECK_DEADLOCK FALSE\n" % ", ".join(ALL_KINDS))
+    cf = ctx.path("cases_names.ndjson")
+    ctx.tlc("Gen_names", cfg, env={"CASE_FILE": cf}, workers=4, timeout=1200)
+    n = ctx.count_lines(cf)
+    if n < 1000:
+        raise vp.Broken("generator Gen_names produced only %d cases" % n)
+    ctx.note("grammar: %d statements with an awkward name or string value in one position (every position of every kind)" % n)
+    return cf
+
+
 def gen_queries(ctx, n):
     cf, r, cnt = _run(ctx, "Gen_query", "query", {"N": n})
     ctx.note("grammar: %d queries of up to %d statements x separators" % (cnt, n))
